@@ -168,3 +168,17 @@ mod tests {
         }
     }
 }
+
+// Verification hooks (add-only, compiled only with `--cfg rngs_verif`).
+#[cfg(rngs_verif)]
+impl SplitMix64 {
+    /// Verification hook: build a generator directly from its state words.
+    pub fn verif_from_state(s: [u64; 1]) -> Self {
+        SplitMix64 { x: s[0] }
+    }
+
+    /// Verification hook: read the state words.
+    pub fn verif_state(&self) -> [u64; 1] {
+        [self.x]
+    }
+}
